@@ -831,6 +831,13 @@ static int parse_data(vnacal_load_state_t *vlsp, const vnacal_layout_t *vlp,
 		*item);
 	double frequency = -1.0;
 
+	(void)memset((void *)matrices, 0, sizeof(matrices));
+	if (child->type != YAML_MAPPING_NODE) {
+	    _vnacal_error(vcp, VNAERR_SYNTAX,
+		    "%s (line %ld) error: expected mapping in \"data\"",
+		    vcp->vc_filename, child->start_mark.line + 1);
+	    return -1;
+	}
 	for (pair = child->data.mapping.pairs.start;
 	     pair < child->data.mapping.pairs.top; ++pair) {
 	    yaml_node_t *key, *value;
